@@ -13,8 +13,8 @@ if [ ! -f Makefile ] || [ _CoqProject -nt Makefile ]; then
   coq_makefile -f _CoqProject -o Makefile >/dev/null || exit 2
 fi
 if [ "$1" = "quiet" ]; then
-  out=$(timeout 3000 make -j16 2>&1) || { echo "$out" | tail -80; exit 2; }
+  out=$(timeout 3000 make -k -j16 2>&1) || { echo "$out" | tail -80; exit 2; }
 else
-  timeout 3000 make -j16 || exit 2
+  timeout 3000 make -k -j16 || exit 2
 fi
 exit 0
